@@ -2,7 +2,7 @@
    Only property theorems, each closed by quoting lemmas proved elsewhere, and Print Assumptions.
    Generated from Properties/bodies/C03.v.in by mkprop.py (shared preamble: hdr.txt, sec.txt). *)
 From Coq Require Import Arith NArith Bool List Lia.
-Require Import Canon SemTk CountTk TableProto BddBase BddIte BddCR BddSat BddCof BddCof2 BddCtor BddEval BddPaths BddPathsCount BddReach BddExport BddDot BddMinimal BddTerm Glue Machine Reachable OpSpecs.
+Require Import Canon SemTk CountTk TableProto BddBase BddIte BddCR BddSat BddCof BddCof2 BddCtor BddEval BddPaths BddPathsCount BddReach BddExport BddDot BddMinimal BddTerm BddTerm2 Glue Machine Reachable OpSpecs FuelMono FuelMono2.
 Import ListNotations.
 Local Open Scope N_scope.
 
@@ -57,6 +57,17 @@ Section C03.
     exists bound, forall fuel, (bound <= fuel)%nat -> mstep fuel mr (HBin op f g) = None ->
       exists s', sext (store mr) s' /\ Inv s' /\ storage_full node (tbl s').
   Proof. exact (bin_step_fuel_bound nhash khash bmask cmask0 smask0 capacity cap_ok mr op f g rf rg). Qed.
+  (* ... and of the n-ary folds and expression trees (sequences of ITE calls whose results stay within the same levels) *)
+  Theorem C03_many_fuel_bound mr disj l rl :
+    reachable mr -> fetch_all (snd mr) l = Some rl ->
+    exists bound, forall fuel, (bound <= fuel)%nat -> mstep fuel mr (HMany disj l) = None ->
+      exists s', sext (store mr) s' /\ Inv s' /\ storage_full node (tbl s').
+  Proof. exact (many_step_fuel_bound nhash khash bmask cmask0 smask0 capacity cap_ok mr disj l rl). Qed.
+  Theorem C03_expr_fuel_bound mr xe ex :
+    reachable mr -> xlate (snd mr) xe = Some ex ->
+    exists bound, forall fuel, (bound <= fuel)%nat -> mstep fuel mr (HExpr xe) = None ->
+      exists s', sext (store mr) s' /\ Inv s' /\ storage_full node (tbl s').
+  Proof. exact (expr_step_fuel_bound nhash khash bmask cmask0 smask0 capacity cap_ok mr xe ex). Qed.
 End C03.
 
 Print Assumptions C03_connectives.
@@ -65,3 +76,5 @@ Print Assumptions C03_many.
 Print Assumptions C03_expr.
 Print Assumptions C03_not_constructor.
 Print Assumptions C03_connectives_fuel_bound.
+Print Assumptions C03_many_fuel_bound.
+Print Assumptions C03_expr_fuel_bound.
